@@ -269,6 +269,53 @@ impl<'ast> Visit<'ast> for SecretReaders {
     }
 }
 
+/// (C04) the doubling-window tail loops of continuities.rs: `while tail_bytes <= MAX_TAIL_BYTES … {
+/// …; tail_bytes = (tail_bytes * 2).min(MAX_TAIL_BYTES); }`
+struct TailLoops {
+    cur_fn: Vec<String>,
+    /// (function, has `if tail_bytes >= MAX_TAIL_BYTES { break; }` before the doubling, doubles,
+    ///  clears an accumulator per window, text of the first `if` after the loop)
+    found: Vec<(String, bool, bool, bool)>,
+}
+
+fn squash(t: impl ToTokens) -> String {
+    t.to_token_stream().to_string().split_whitespace().collect()
+}
+
+impl<'ast> Visit<'ast> for TailLoops {
+    fn visit_item_mod(&mut self, m: &'ast syn::ItemMod) {
+        if m.ident == "tests" {
+            return;
+        }
+        syn::visit::visit_item_mod(self, m);
+    }
+    fn visit_impl_item_fn(&mut self, f: &'ast syn::ImplItemFn) {
+        self.cur_fn.push(f.sig.ident.to_string());
+        syn::visit::visit_impl_item_fn(self, f);
+        self.cur_fn.pop();
+    }
+    fn visit_expr_while(&mut self, w: &'ast syn::ExprWhile) {
+        let cond = squash(&w.cond);
+        if cond.starts_with("tail_bytes<=MAX_TAIL_BYTES") {
+            let mut has_exit = false;
+            let mut doubles = false;
+            for st in &w.body.stmts {
+                let t = squash(st);
+                if t.starts_with("iftail_bytes>=MAX_TAIL_BYTES{break;}") && !doubles {
+                    has_exit = true;
+                }
+                if t.starts_with("tail_bytes=(tail_bytes*2).min(MAX_TAIL_BYTES)") {
+                    doubles = true;
+                }
+            }
+            let clears = squash(&w.body).contains(".clear();");
+            let name = self.cur_fn.last().cloned().unwrap_or_default();
+            self.found.push((name, has_exit, doubles, clears));
+        }
+        syn::visit::visit_expr_while(self, w);
+    }
+}
+
 const SECRET_FILES: &[&str] = &[
     "crates/ripd/src/config.rs",
     "crates/ripd/src/server.rs",
@@ -986,6 +1033,40 @@ fn main() {
     lean.push_str(&format!("/-- File::create / set_len / seek / fs::write / remove_file / rename / truncate inside impl EventLog -/\ndef destructiveCalls : Nat := {}\n\n", log_fx.destructive));
     lean.push_str("end Rip.Gen.LogEffects\n");
     write_if_changed(&out.join("LogEffects.lean"), &lean);
+
+    // tail loops (C04)
+    let mut loops = TailLoops { cur_fn: Vec::new(), found: Vec::new() };
+    match load("crates/ripd/src/continuities.rs", &mut parsed) {
+        Ok(()) => loops.visit_file(&parsed["crates/ripd/src/continuities.rs"]),
+        Err(e) => {
+            eprintln!("ripx: {e}");
+            std::process::exit(1);
+        }
+    }
+    let cont_src = std::fs::read_to_string(repo.join("crates/ripd/src/continuities.rs")).unwrap_or_default();
+    let cont_flat: String = cont_src.split_whitespace().collect();
+    // provider_cursor_status_v1 falls back to the truth log when its scan was not enough
+    let cursor_fallback = cont_flat.contains("if!scanned_sidecar||!tail_enough{");
+    // context_selection_status_v1 falls back when the tail is incomplete and short of the limit
+    let selection_fallback = cont_flat.contains("if!scanned_sidecar||(!tail_complete&&decisions.len()<limit){");
+    // scan_tail rejects a file whose first frame is not seq 0 when the scan reached its start
+    let cache_src = std::fs::read_to_string(repo.join("crates/ripd/src/continuity_stream_cache.rs")).unwrap_or_default();
+    let cache_flat: String = cache_src.split_whitespace().collect();
+    let head_check = cache_flat.contains("parsed.complete&&events.first().map(|event|event.seq)!=Some(0)")
+        || cache_flat.contains("parsed.complete&&events.first().map(|e|e.seq)!=Some(0)");
+    let mut lean = String::new();
+    lean.push_str("/- GENERATED by ripx from crates/ripd/src/continuities.rs and continuity_stream_cache.rs. Do not edit. -/\nnamespace Rip.Gen.TailLoops\n\n");
+    lean.push_str("/-- doubling-window loops `while tail_bytes <= MAX_TAIL_BYTES …`: (FNV-1a 64 of the function name, leaves the loop at the largest window, doubles the window, clears an accumulator per window) -/\n");
+    lean.push_str("def loops : List (Nat × Bool × Bool × Bool) := [\n");
+    for (i, (n, e, d, c)) in loops.found.iter().enumerate() {
+        lean.push_str(&format!("  ({}, {e}, {d}, {c}){} -- {n}\n", fnv64(n.as_bytes()), if i + 1 < loops.found.len() { "," } else { "" }));
+    }
+    lean.push_str("]\n\n");
+    lean.push_str(&format!("/-- provider_cursor_status_v1: `if !scanned_sidecar || !tail_enough` ⇒ answer from the truth log -/\ndef cursorFallback : Bool := {cursor_fallback}\n\n"));
+    lean.push_str(&format!("/-- context_selection_status_v1: `if !scanned_sidecar || (!tail_complete && decisions.len() < limit)` ⇒ truth log -/\ndef selectionFallback : Bool := {selection_fallback}\n\n"));
+    lean.push_str(&format!("/-- scan_tail: a scan that reached the start of the file must begin at seq 0 -/\ndef headCheck : Bool := {head_check}\n\n"));
+    lean.push_str("end Rip.Gen.TailLoops\n");
+    write_if_changed(&out.join("TailLoops.lean"), &lean);
 
     // secret readers (C19)
     let mut readers = SecretReaders { cur_fn: Vec::new(), found: BTreeMap::new() };
